@@ -3,13 +3,15 @@ import OrdModel.Proofs.IndexLiftInsChain
 /-
 C03 lift to reachable states, part 1: the offset-tracking invariant as a *per-entry* predicate.
 
-* `InsSat E R ins`: every listed `(seq, off)` of `ins` names an existing inscription entry of `E`,
-  and if that entry is bound to a sat `s`, the `off`-th sat of the ranges `R` is `s`.
+* `InsSat E R ins`: every listed `(seq, off)` of `ins` names an existing inscription entry of `E`
+  that is bound to a sat `s`, and the `off`-th sat of the ranges `R` is `s`.
 * `EntSat E e := InsSat E e.ranges e.ins` — a UTXO entry (table row, cache row, output entry under
-  construction) lists its inscriptions where their sats are.
-* `FlOK E R f`: a floating *old* inscription names an existing entry, and if bound to `s`, the sat
-  at the flotsam's offset of the ranges `R` (the concatenated input ranges; for saved flotsam the
-  ranges queued for the coinbase) is `s`.
+  construction) lists bound inscriptions, each where its sat is.
+* `InsNone E ins`: every listed `(seq, off)` names an existing entry that has no sat (what the
+  unbound pseudo-output lists).
+* `FlOK E R f`: a floating *old* inscription names an existing entry bound to a sat `s`, and the
+  sat at the flotsam's offset of the ranges `R` (the concatenated input ranges; for saved flotsam
+  the ranges queued for the coinbase) is `s`.
 * `EntExt E E'`: the entry table only grows, and existing entries keep their sat.
 
 `den`, `lenR`, `Ranges` are the sat group's (`Proofs/IndexSatsDen.lean`); `Insloc.den` is the same
@@ -33,22 +35,26 @@ theorem den_shift_some {P R : Ranges} {k s : Nat} (h : (den R)[k]? = some s) :
   rw [den_append, List.getElem?_append_right (by rw [den_length]; omega), den_length]
   rw [show lenR P + k - lenR P = k by omega]; exact h
 
-/-- every listed `(seq, off)` names an entry; a bound one sits on the `off`-th sat of `R` -/
+/-- every listed `(seq, off)` names an entry bound to a sat, which is the `off`-th sat of `R` -/
 @[reducible] def InsSat (E : List InsEntry) (R : Ranges) (ins : List (Nat × Nat)) : Prop :=
-  ∀ seq off, (seq, off) ∈ ins → ∃ entry, E[seq]? = some entry ∧
-    ∀ s, entry.sat = some s → (den R)[off]? = some s
+  ∀ seq off, (seq, off) ∈ ins → ∃ (entry : InsEntry) (s : Nat), E[seq]? = some entry ∧
+    entry.sat = some s ∧ (den R)[off]? = some s
 
-/-- a UTXO entry lists its inscriptions where their sats are -/
+/-- a UTXO entry lists bound inscriptions, each where its sat is -/
 @[reducible] def EntSat (E : List InsEntry) (e : UtxoEntry) : Prop := InsSat E e.ranges e.ins
+
+/-- every listed `(seq, off)` names an entry without a sat -/
+@[reducible] def InsNone (E : List InsEntry) (ins : List (Nat × Nat)) : Prop :=
+  ∀ seq off, (seq, off) ∈ ins → ∃ entry : InsEntry, E[seq]? = some entry ∧ entry.sat = none
 
 /-- the entry table grows and entries keep their sat -/
 @[reducible] def EntExt (E E' : List InsEntry) : Prop :=
   ∀ (i : Nat) (e : InsEntry), E[i]? = some e → ∃ e' : InsEntry, E'[i]? = some e' ∧ e'.sat = e.sat
 
-/-- a floating old inscription points at its sat in `R` -/
+/-- a floating old inscription is bound to a sat and points at it in `R` -/
 @[reducible] def FlOK (E : List InsEntry) (R : Ranges) (f : Flotsam) : Prop :=
-  ∀ seq osp, f.origin = .old seq osp → ∃ entry, E[seq]? = some entry ∧
-    ∀ s, entry.sat = some s → (den R)[f.offset]? = some s
+  ∀ seq osp, f.origin = .old seq osp → ∃ (entry : InsEntry) (s : Nat), E[seq]? = some entry ∧
+    entry.sat = some s ∧ (den R)[f.offset]? = some s
 
 theorem EntExt.refl (E : List InsEntry) : EntExt E E := fun _ e h => ⟨e, h, rfl⟩
 
@@ -69,9 +75,9 @@ theorem InsSat.nil (E : List InsEntry) (R : Ranges) : InsSat E R [] := by
 theorem InsSat.mono {E E' : List InsEntry} {R : Ranges} {ins : List (Nat × Nat)} (h : InsSat E R ins)
     (hx : EntExt E E') : InsSat E' R ins := by
   intro seq off hm
-  obtain ⟨entry, h1, h2⟩ := h seq off hm
+  obtain ⟨entry, s, h1, h2, h3⟩ := h seq off hm
   obtain ⟨e', g1, g2⟩ := hx seq entry h1
-  exact ⟨e', g1, fun s hs => h2 s (g2 ▸ hs)⟩
+  exact ⟨e', s, g1, g2.trans h2, h3⟩
 
 theorem InsSat.sub {E : List InsEntry} {R : Ranges} {ins ins' : List (Nat × Nat)} (h : InsSat E R ins)
     (hs : ∀ x ∈ ins', x ∈ ins) : InsSat E R ins' :=
@@ -80,8 +86,8 @@ theorem InsSat.sub {E : List InsEntry} {R : Ranges} {ins ins' : List (Nat × Nat
 theorem InsSat.append_ranges {E : List InsEntry} {R : Ranges} {ins : List (Nat × Nat)} (h : InsSat E R ins)
     (R' : Ranges) : InsSat E (R ++ R') ins := by
   intro seq off hm
-  obtain ⟨entry, h1, h2⟩ := h seq off hm
-  exact ⟨entry, h1, fun s hs => den_append_some (h2 s hs)⟩
+  obtain ⟨entry, s, h1, h2, h3⟩ := h seq off hm
+  exact ⟨entry, s, h1, h2, den_append_some h3⟩
 
 theorem InsSat.append {E : List InsEntry} {R : Ranges} {a b : List (Nat × Nat)} (ha : InsSat E R a)
     (hb : InsSat E R b) : InsSat E R (a ++ b) := by
@@ -91,8 +97,35 @@ theorem InsSat.append {E : List InsEntry} {R : Ranges} {a b : List (Nat × Nat)}
   · exact hb seq off hm
 
 theorem InsSat.push {E : List InsEntry} {R : Ranges} {ins : List (Nat × Nat)} (h : InsSat E R ins)
-    (q off : Nat) (hq : ∃ entry, E[q]? = some entry ∧ ∀ s, entry.sat = some s → (den R)[off]? = some s) :
+    (q off : Nat)
+    (hq : ∃ (entry : InsEntry) (s : Nat), E[q]? = some entry ∧ entry.sat = some s ∧ (den R)[off]? = some s) :
     InsSat E R (ins ++ [(q, off)]) := by
+  refine h.append ?_
+  intro seq off' hm
+  simp only [List.mem_singleton, Prod.mk.injEq] at hm
+  obtain ⟨rfl, rfl⟩ := hm
+  exact hq
+
+theorem InsNone.nil (E : List InsEntry) : InsNone E [] := by
+  intro _ _ h; cases h
+
+theorem InsNone.mono {E E' : List InsEntry} {ins : List (Nat × Nat)} (h : InsNone E ins)
+    (hx : EntExt E E') : InsNone E' ins := by
+  intro seq off hm
+  obtain ⟨entry, h1, h2⟩ := h seq off hm
+  obtain ⟨e', g1, g2⟩ := hx seq entry h1
+  exact ⟨e', g1, g2.trans h2⟩
+
+theorem InsNone.append {E : List InsEntry} {a b : List (Nat × Nat)} (ha : InsNone E a)
+    (hb : InsNone E b) : InsNone E (a ++ b) := by
+  intro seq off hm
+  rcases List.mem_append.1 hm with hm | hm
+  · exact ha seq off hm
+  · exact hb seq off hm
+
+theorem InsNone.push {E : List InsEntry} {ins : List (Nat × Nat)} (h : InsNone E ins)
+    (q off : Nat) (hq : ∃ entry : InsEntry, E[q]? = some entry ∧ entry.sat = none) :
+    InsNone E (ins ++ [(q, off)]) := by
   refine h.append ?_
   intro seq off' hm
   simp only [List.mem_singleton, Prod.mk.injEq] at hm
@@ -110,15 +143,15 @@ theorem EntSat.mono {E E' : List InsEntry} {e : UtxoEntry} (h : EntSat E e) (hx 
 theorem FlOK.mono {E E' : List InsEntry} {R : Ranges} {f : Flotsam} (h : FlOK E R f) (hx : EntExt E E') :
     FlOK E' R f := by
   intro seq osp ho
-  obtain ⟨entry, h1, h2⟩ := h seq osp ho
+  obtain ⟨entry, s, h1, h2, h3⟩ := h seq osp ho
   obtain ⟨e', g1, g2⟩ := hx seq entry h1
-  exact ⟨e', g1, fun s hs => h2 s (g2 ▸ hs)⟩
+  exact ⟨e', s, g1, g2.trans h2, h3⟩
 
 theorem FlOK.append_ranges {E : List InsEntry} {R : Ranges} {f : Flotsam} (h : FlOK E R f) (R' : Ranges) :
     FlOK E (R ++ R') f := by
   intro seq osp ho
-  obtain ⟨entry, h1, h2⟩ := h seq osp ho
-  exact ⟨entry, h1, fun s hs => den_append_some (h2 s hs)⟩
+  obtain ⟨entry, s, h1, h2, h3⟩ := h seq osp ho
+  exact ⟨entry, s, h1, h2, den_append_some h3⟩
 
 theorem FlOK.of_new {E : List InsEntry} {R : Ranges} {f : Flotsam} (h : isNew f = true) : FlOK E R f := by
   intro seq osp ho
@@ -129,8 +162,8 @@ theorem FlOK.congr {E : List InsEntry} {R : Ranges} {f g : Flotsam} (h : FlOK E 
     (ho : ∀ seq osp, g.origin = .old seq osp → f.origin = .old seq osp) (hoff : g.offset = f.offset) :
     FlOK E R g := by
   intro seq osp hg
-  obtain ⟨entry, h1, h2⟩ := h seq osp (ho seq osp hg)
-  exact ⟨entry, h1, fun s hs => hoff ▸ h2 s hs⟩
+  obtain ⟨entry, s, h1, h2, h3⟩ := h seq osp (ho seq osp hg)
+  exact ⟨entry, s, h1, h2, hoff ▸ h3⟩
 
 /-! ### the invariant on a `LocState` while one transaction's flotsam is being placed -/
 
@@ -139,6 +172,6 @@ now followed by the block's lost ranges) -/
 structure LsInv (NR : Ranges) (ls : LocState) : Prop where
   outs : ∀ e ∈ ls.outs, EntSat ls.st.entries e
   nul : ∀ ne, ls.ctx.nullEntry = some ne → InsSat ls.st.entries NR ne.ins
-  unb : ∀ ue, ls.ctx.unboundEntry = some ue → InsSat ls.st.entries [] ue.ins
+  unb : ∀ ue, ls.ctx.unboundEntry = some ue → InsNone ls.st.entries ue.ins
 
 end Ord.Index.OnSatLift
